@@ -28,12 +28,16 @@ DEVS = {
 # how TeardownEnvironment merges the DESTROY and after_DESTROY hook maps (equal weights: the latter replaces
 # the former).  Not a C04/C06 matter: the model follows the code, the check reports it as an observation.
 ALWAYS = {"Code_AfterDestroyOverwrites": True}
+# classes of change the model decides; not in the tree (TLC finds PostOnReturn resp. ForeignUntouched violated when TRUE)
+CLASSES = {"Code_ReleaseSkipsBlanked": False, "Code_MasterUpdateBlanksIds": False}
+MASTER_KINDS = {"MASTER_NOEXEC": "noexec", "MASTER_NOIDS": "noids"}
 
 HOOKDEF = {"h1": ("task", "DESTROY", 0), "h2": ("task", "DESTROY", 1), "h3": ("task", "after_DESTROY", 0),
            "d1": ("call", "DESTROY", 0), "d2": ("call", "DESTROY", 1), "d3": ("call", "after_DESTROY", 0)}
 ALLGATES = ["envman.create.snapshot", "envman.create.registered", "task.lock", "td.left", "td.released1", "td.destroyhooks",
             "td.released2", "td.done", "task.kill.send", "env.lock.acquired"]
-C04_INVS = {"OneOwner", "OwnerMatchesListing", "DetExclusive", "KillUnowned", "LockUnowned", "ReleaseOwn", "CommandOwn",
+C04_INVS = {"OneOwner", "OwnerMatchesListing", "DetExclusive", "KillUnowned", "SelectUnowned", "OwnedInRoster", "LockUnowned",
+            "ReleaseOwn", "CommandOwn",
             "ConflictFails", "HolderUnchanged", "NoCrash"}
 C06_INVS = {"OwnerListed", "PostListed", "PostOwned", "PostOwnedApi", "PostKilled", "PostOrphan", "PostDetectors", "DestroyHooksLast", "Returns",
             "PendingCalls"}
@@ -70,13 +74,14 @@ def code_consts(ctx, as_is=True, only=None):
         out[c] = (dev_open(ctx, c) if as_is else False) or c == only
     for c, v in ALWAYS.items():
         out[c] = v if as_is else False
+    out.update(CLASSES)
     return out
 
 
 BASE = dict(Envs={"e1", "e2"}, TaskIds={"k1", "k2", "k3", "k4"}, Dets={"TPC", "ITS"}, Hosts={"h1", "h2"}, ReuseUnlocked=False,
             BasicChoices=[{"a"}], HookChoices=[set()], PendChoices=[False], DetChoices=[{"TPC"}, {"ITS"}], Scripts={"ok"},
             Ops={"START_ACTIVITY", "STOP_ACTIVITY"}, DestroyFlags=[set(), {"force"}, {"keep"}], KillOutcomes={"ack"},
-            FaultRoles=set(), MaxCalls=4, MaxInFlight=2)
+            FaultRoles=set(), FaultKinds={"TASK_FAILED"}, MaxCalls=4, MaxInFlight=2)
 
 
 def consts_text(c):
@@ -95,6 +100,7 @@ def cfg_model(ctx, c, code):
 
 def cfg_gen(ctx, c, code, pairs, gates=None, invs=None, max_pairs=1):
     d = dict(BASE)
+    d["MaxFaults"] = 2
     d.update(c)
     d.update(code)
     d["Pairs"] = pairs
@@ -109,7 +115,8 @@ def cfg_gen(ctx, c, code, pairs, gates=None, invs=None, max_pairs=1):
 def cfg_trace(ctx, reuse):
     d = dict(BASE)
     d.update(Envs={"e1", "e2", "e3"}, TaskIds={"k%d" % i for i in range(1, 61)}, ReuseUnlocked=reuse, Scripts={"ok"},
-             KillOutcomes={"ack", "silent"}, FaultRoles={"a", "b", "h1", "h2", "h3"}, MaxCalls=1000, MaxInFlight=1000)
+             KillOutcomes={"ack", "silent"}, FaultRoles={"a", "b", "h1", "h2", "h3"},
+             FaultKinds={"TASK_FAILED", "EXECUTOR_LOST", "AGENT_LOST", "MASTER_NOEXEC", "MASTER_NOIDS"}, MaxCalls=1000, MaxInFlight=1000)
     d.update(code_consts(ctx, as_is=True))
     return "SPECIFICATION TraceSpec\nCONSTANTS\n%s\nINVARIANT PrintEnd\nCHECK_DEADLOCK FALSE\n" % consts_text(d)
 
@@ -138,6 +145,8 @@ def norm_call(rec):
         r["op"] = rec["op"]
     elif r["do"] == "fault":
         r["role"] = rec["role"]
+        r["kind"] = rec.get("kind", "TASK_FAILED")
+        r["errs"] = setof(rec.get("errs", []))
     return r
 
 
@@ -257,7 +266,7 @@ class Builder:
             if kind == "task":
                 c = self.cls(e, h)
                 self.files["tasks/%s.yaml" % c] = cs.task_class(c, mode="hook")
-                roles += cs.role_task(h, c, host="h1", trigger=trig(t, w), critical=False)
+                roles += cs.role_task(h, c, host="h2" if h == "h2" else "h1", trigger=trig(t, w), critical=False)
             else:
                 roles += cs.role_call(h, h, trig(t, w), critical=False)
         if rec["pend"]:
@@ -318,9 +327,16 @@ class Builder:
                                {"do": "snapshot"}, {"do": "release", "point": point}, {"do": "await", "caller": "A"}, {"do": "await", "caller": "B"},
                                {"do": "settle", "ms": 40}, {"do": "snapshot"}]
             elif it["do"] == "fault":
-                e = it["env"]
-                self.steps += [{"do": "fault", "kind": "TASK_FAILED", "class": self.cls(e, it["role"])}, {"do": "settle", "ms": 60},
-                               {"do": "snapshot"}]
+                e, kind = it["env"], it.get("kind", "TASK_FAILED")
+                if kind in MASTER_KINDS:
+                    # a status update generated by the master, without executor id (step of harness/coresim/ext_c03.go)
+                    self.steps.append({"do": "masterupdate", "class": self.cls(e, it["role"]), "kind": MASTER_KINDS[kind]})
+                else:
+                    self.steps.append({"do": "fault", "kind": kind, "class": self.cls(e, it["role"])})
+                # the workflow-state watcher moves an environment to ERROR 500 ms after a critical task of it was lost
+                for x in it.get("errs", []):
+                    self.steps.append({"do": "poll", "env": x, "until": ["ERROR"], "timeout_ms": 4000})
+                self.steps += [{"do": "settle", "ms": 60}, {"do": "snapshot"}]
             else:
                 self.steps += [self.call_step(it), {"do": "settle", "ms": 40}, {"do": "snapshot"}]
         self.steps += [{"do": "pendingcalls"}, {"do": "cleanup"}, {"do": "settle", "ms": 60}, {"do": "snapshot"}]
@@ -420,6 +436,7 @@ class Projector:
         self.alias = {}
         self.keepflag = {}
         self.facts = {}      # scn -> {"tasks": {k: {...}}, "phase": {env: last teardown phase}}
+        self.where = {}      # compact task name -> (agent, executor)
 
     def fact(self, t):
         return self.facts[self.cur]["tasks"].setdefault(t, {"role": "?", "env": "", "rostered": False, "inactive": False,
@@ -437,9 +454,9 @@ class Projector:
     def __call__(self, ln):
         ev, scn = ln["ev"], ln.get("scn", -1)
         if ev == "Reset":
-            self.cur, self.ended, self.launched, self.keepflag, self.alias = scn, False, set(), {}, {}
+            self.cur, self.ended, self.launched, self.keepflag, self.alias, self.where = scn, False, set(), {}, {}, {}
             m = self.by_id[scn]["model"]
-            self.facts[scn] = {"tasks": {}, "phase": {}}
+            self.facts[scn] = {"tasks": {}, "phase": {}, "lost": set()}
             return {"ev": "Reset", "scn": scn, "model": {"reuse": m["reuse"], "strict": bool(m.get("strict", True)), "envs": m["envs"]}}
         if self.ended or scn != self.cur:
             return None
@@ -463,6 +480,8 @@ class Projector:
                 return None
             if ln.get("task") and ln["task"] not in self.alias:
                 return None     # a task of an earlier scenario of this core process
+            if ln.get("env") and ln["env"] not in self.by_id[scn]["model"]["envs"]:
+                return None     # an environment of an earlier scenario (its watcher fires late)
             if p == "task.roster.appended":
                 self.fact(self.tk(ln["task"]))["rostered"] = True
             elif p == "task.acquire.claim":
@@ -481,6 +500,7 @@ class Projector:
                 return None
             for t in ln["tasks"]:
                 self.alias[t["task"]] = "k%d" % (len(self.alias) + 1)
+                self.where[self.alias[t["task"]]] = (t.get("agent", ""), t.get("executor", ""))
             ts = [{"task": self.tk(t["task"]), "role": self.role(t["class"]), "env": t["env"]} for t in ln["tasks"]]
             self.launched |= {t["task"] for t in ln["tasks"]}
             for t in ts:
@@ -515,6 +535,18 @@ class Projector:
                       if m["task"] in keep]
             return {"ev": "Snapshot", "scn": scn, "envs": envs, "tasks": tasks, "active_dets": sorted(ln["active_dets"]),
                     "master": master}
+        if ev == "Fault":
+            # executor / agent reported lost: the tasks (of this scenario) that lived there
+            if not ln.get("ok") or ln.get("kind") not in ("EXECUTOR_LOST", "AGENT_LOST") or ln.get("task") not in self.alias:
+                return None
+            ag, ex = self.where[self.tk(ln["task"])]
+            grp = sorted(k for k, (a, x) in self.where.items() if a == ag and (ln["kind"] == "AGENT_LOST" or x == ex))
+            self.facts[scn]["lost"] |= set(grp)
+            return {"ev": "Fault", "scn": scn, "kind": ln["kind"], "task": self.tk(ln["task"]), "tasks": grp}
+        if ev == "MasterUpdate":
+            if not ln.get("ok") or ln.get("task") not in self.alias:
+                return None
+            return {"ev": "MasterUpdate", "scn": scn, "task": self.tk(ln["task"]), "kind": ln.get("kind", "")}
         if ev == "Pending":
             return {"ev": "Pending", "scn": scn, "n": ln["n"]}
         return None
@@ -549,7 +581,7 @@ def run_and_validate(ctx, scenarios, own_invs, label):
                 continue
             seen.add((inv, scn))
             s = by_id.get(scn, {})
-            sig = signature(inv, s, v[4] if len(v) > 4 else None, pj.facts.get(scn, {"tasks": {}, "phase": {}}))
+            sig = signature(inv, s, v[4] if len(v) > 4 else None, pj.facts.get(scn, {"tasks": {}, "phase": {}, "lost": set()}))
             if inv not in own_invs:
                 ctx.observations.append("invariant %s of the sibling property flagged scenario %d (%s)" % (inv, scn, json.dumps(sig)[:160]))
                 continue
@@ -584,7 +616,9 @@ def cause_of(inv, s, detail, facts):
             f = tf.get(t, {})
             r = f.get("role", "?")
             if inv in ("PostOwned", "PostOwnedApi", "OwnerListed"):
-                if r in HOOKDEF and HOOKDEF[r][0] == "task" and not f.get("triggered"):
+                if t in facts.get("lost", ()):
+                    causes.add("executor-or-agent-lost")
+                elif r in HOOKDEF and HOOKDEF[r][0] == "task" and not f.get("triggered"):
                     causes.add("hook-inactive")
                 elif r in HOOKDEF and HOOKDEF[r][0] == "task" and HOOKDEF[r][2] < maxw:
                     causes.add("hook-not-last-weight")
@@ -607,7 +641,8 @@ def cause_of(inv, s, detail, facts):
         if facts.get("phase", {}).get(e) in ("left", "cancelled"):
             return "release-rendezvous-lost"
         return "other"
-    if inv in ("LockUnowned", "OneOwner", "OwnerMatchesListing", "CommandOwn", "ReleaseOwn", "KillUnowned"):
+    if inv in ("LockUnowned", "OneOwner", "OwnerMatchesListing", "CommandOwn", "ReleaseOwn", "KillUnowned", "SelectUnowned",
+               "OwnedInRoster"):
         names = set(re.findall(r'"(k[0-9]+)"', json.dumps(detail, default=str)))
         if any(tf.get(t, {}).get("claims", 0) >= 2 for t in names):
             return "double-claim"
